@@ -3,7 +3,11 @@
  * Every operation is proved from every well-formed state and re-establishes wf_cache, so the statements hold after
  * histories of any length (at these capacities).
  * In the put.grow units janet_cache_resize is replaced by its contract (sy_resize_contract), which units sc.resize.* prove
- * of the real function; everything else runs the real code, including the real findmem inside put / deinit / resize. */
+ * of the real function; everything else runs the real code, including the real findmem inside put / deinit / resize.
+ *
+ * KNOWN FAILURE (unit sc.put.cap2.stay, disabled in units/C01_symcache.json): from capacity 2, count 1, deleted 0
+ * janet_symcache_put fills the cache completely (I6 lost); the next lookup of a new text aborts in findmem. Native
+ * reproducer: harness/symcache_repro_cap2.c. */
 #include "symcache_common.h"
 
 #ifndef SY_CAP
